@@ -369,6 +369,17 @@ func Combs() []Comb {
 			},
 			L: func(in [][]int, p Params) [][]int { return xslices.Runs(in[0], p.same) },
 		},
+		{Name: "RunsHeads", UsesKey: true, // the consumer reads only the first item of every run; Runs drains the rest itself
+			I: func(s []*Src, p Params) outI {
+				return mapI[iterator.Iterator[int]]{iterator.Runs(s[0].Iter(), p.same), func(in iterator.Iterator[int]) []int {
+					x, _ := in.Next()
+					return []int{x}
+				}}
+			},
+			S: func(s []*Src, p Params) outS {
+				return &runsHeads{outer: stream.Runs[int](s[0], p.same)}
+			},
+		},
 		{Name: "While", UsesPred: true, HasCb: true,
 			I: func(s []*Src, p Params) outI { return scalarsI(iterator.While(s[0].Iter(), p.pred)) },
 			S: func(s []*Src, p Params) outS {
@@ -414,3 +425,27 @@ func (r *runsDrain) Next(ctx context.Context) ([]int, error) {
 	}
 }
 func (r *runsDrain) Close() { r.outer.Close() }
+
+// runsHeads reads the head of every run and leaves the rest of the run to the outer stream's own
+// draining; a failure while reading the head is retried on the same inner stream.
+type runsHeads struct {
+	outer stream.Stream[stream.Stream[int]]
+	inner stream.Stream[int]
+}
+
+func (r *runsHeads) Next(ctx context.Context) ([]int, error) {
+	if r.inner == nil {
+		in, err := r.outer.Next(ctx)
+		if err != nil {
+			return nil, err
+		}
+		r.inner = in
+	}
+	x, err := r.inner.Next(ctx)
+	if err != nil {
+		return nil, err
+	}
+	r.inner = nil
+	return []int{x}, nil
+}
+func (r *runsHeads) Close() { r.outer.Close() }
